@@ -255,3 +255,32 @@ def _(v):
         back = Reaction.from_string(str(r), checks=())
         ok.append(back.prod == r.prod and back.reac == r.reac)
     v.prove("decimal_coefficients_round_trip", all(ok), str(ok))
+
+
+@harness("C12", "print_parse_round_trip.with_names", functions=["chempy.printing.string:StrPrinter._print_Reaction", "chempy.printing.string:StrPrinter._print_ReactionSystem",
+                                                                "chempy.chemistry:Reaction.from_string", "chempy.reactionsystem:ReactionSystem.from_string"], kind="data")
+def _(v):
+    """'printing a reaction, equilibrium or system ... and parsing the text back yields an equal object' for objects that carry a NAME (the
+    documented notation for it is  ; name='...' )"""
+    from chempy.chemistry import Reaction, Equilibrium
+    from chempy.reactionsystem import ReactionSystem
+
+    def back(cls, obj, **kw):
+        try:
+            r = cls.from_string(str(obj) if not isinstance(obj, ReactionSystem) else obj.string(), **kw)
+            return r == obj and getattr(r, "name", None) == getattr(obj, "name", None), ""
+        except Exception as ex:
+            return False, "%s: %r" % (str(obj)[:60], ex)
+    r = Reaction.from_string("A -> B; 2.5; name='x'")
+    ok, det = back(Reaction, r)
+    v.prove("named_reaction_with_parameter", ok, detail=det)
+    ok, det = back(Reaction, Reaction({"A": 2}, {"B": 1}, name="first"))
+    v.prove("named_reaction_without_parameter", ok, detail=det)
+    ok, det = back(Equilibrium, Equilibrium({"A": 1}, {"B": 1}, 3.0, name="eq1"))
+    v.prove("named_equilibrium", ok, detail=det)
+    rs = ReactionSystem.from_string("H2O -> H+ + OH-; 2\nH+ + OH- -> H2O; 3", name="mysys")
+    ok, det = back(ReactionSystem, rs)
+    v.prove("named_system", ok, detail=det)
+    plain = ReactionSystem.from_string("H2O -> H+ + OH-; 2\nH+ + OH- -> H2O; 3")
+    ok, det = back(ReactionSystem, plain)
+    v.prove("unnamed_system", ok, detail=det)
